@@ -773,3 +773,75 @@ V("C05-benign-reversed-compare", "C05", "bound comparison written with swapped o
   old="        if self.max is not None and num > self.max:", new="        if self.max is not None and self.max < num:")
 V("C05-benign-is-none-form", "C05", "guard written as `not (x is None)`", NUM, expect="silent",
   old="        if self.min is not None and num < self.min:", new="        if not (self.min is None) and num < self.min:")
+
+# ------------------------------------------------------------------------------------------ C04
+V("C04-int-before-bool", "C04", "int branch before bool in the XML writer", XML,
+  """        elif isinstance(value, bool):
+            ele.attrib["type"] = "bool"
+            ele.text = "true" if value else "false"
+        elif isinstance(value, int):
+            ele.attrib["type"] = "int"
+            ele.text = str(value)""",
+  """        elif isinstance(value, int):
+            ele.attrib["type"] = "int"
+            ele.text = str(value)
+        elif isinstance(value, bool):
+            ele.attrib["type"] = "bool"
+            ele.text = "true" if value else "false\"""", expect_rule="dispatch.subclass-first")
+V("C04-tag-renamed-one-side", "C04", "writer tags floats 'double', reader still expects 'float'", XML,
+  "            ele.attrib[\"type\"] = \"float\"", "            ele.attrib[\"type\"] = \"double\"", expect_rule="xml.tags-agree")
+V("C04-bool-branch-removed-both", "C04", "bool branch removed on both sides", XML, edits=[
+    (XML, "        elif isinstance(value, bool):\n            ele.attrib[\"type\"] = \"bool\"\n            ele.text = \"true\" if value else \"false\"\n", ""),
+    (XML, """        elif py_type == "bool":
+            if text.lower() in BoolField.TRUE_VALUES:
+                value = True
+            elif text.lower() in BoolField.FALSE_VALUES:
+                value = False
+            else:
+                value = text
+""", "")], expect_rule="xml.writer-covers")
+V("C04-reader-int-as-text", "C04", "reader keeps int elements as text", XML,
+  "            try:\n                value = int(text)\n            except:  # noqa: E722\n                value = text", "            value = text",
+  expect_rule="xml.tags-agree")
+V("C04-root-check-removed", "C04", "wrong root tag accepted", XML,
+  "        if root.tag != self.root_tag:\n            raise ValueError(\"unexpected root tag: %s\" % root.tag)\n\n", "", expect_rule="xml.root-tag-checked")
+V("C04-yaml-unwrap-only", "C04", "YAML dumps no longer wraps under root_key", YAML,
+  "        if self.root_key:\n            tree = {self.root_key: tree}\n", "", expect_rule="yaml.root-key-symmetric")
+V("C04-yaml-mismatched-loader", "C04", "yaml.Dumper paired with SafeLoader", YAML,
+  "Loader=yaml.Loader", "Loader=yaml.SafeLoader", expect_rule="wrapper.yaml-dumper-loader")
+V("C04-registry-missing", "C04", "pickle format dropped from the registry", FMT,
+  "    (\"pickle\", PickleConfigFormat),\n", "", expect_rule="registry.")
+V("C04-registry-duplicate-name", "C04", "xml registered under the name 'json'", FMT,
+  "    (\"xml\", XmlConfigFormat),", "    (\"json\", XmlConfigFormat),", expect_rule="registry.")
+V("C04-json-compact-loads-differs", "C04", "JSON loads depends on the pretty option", JSON,
+  "        return json.loads(content.decode())", "        return json.loads(content.decode()) if self.pretty else json.loads(content.decode(), parse_int=str)",
+  expect_rule="wrapper.options-dont-change-decoding")
+V("C04-bool-literals", "C04", "XML writes True/False as 'T'/'F'", XML,
+  "            ele.text = \"true\" if value else \"false\"", "            ele.text = \"T\" if value else \"F\"", expect="silent",
+  note="'t'/'f' are tokens of the tables after lower(): still accepted")
+V("C04-bool-literals-bad", "C04", "XML writes booleans as 'yes!'/'nope'", XML,
+  "            ele.text = \"true\" if value else \"false\"", "            ele.text = \"yes!\" if value else \"nope\"", expect_rule="xml.bool-literals")
+V("C04-none-as-str", "C04", "None written as an empty string element", XML,
+  "        elif value is None:\n            ele.attrib[\"type\"] = \"none\"", "        elif value is None:\n            ele.attrib[\"type\"] = \"str\"",
+  expect_rule="xml.")
+V("C04-benign-elif-order", "C04", "list/dict branches swapped in the writer", XML, expect="silent",
+  old="""        elif isinstance(value, list):
+            ele.attrib["type"] = "list"
+            for item in value:
+                sub = self._to_element("item", item)
+                ele.append(sub)
+        elif isinstance(value, dict):
+            ele.attrib["type"] = "dict"
+            for subkey, subval in value.items():
+                sub = self._to_element(subkey, subval)
+                ele.append(sub)""",
+  new="""        elif isinstance(value, dict):
+            ele.attrib["type"] = "dict"
+            for subkey, subval in value.items():
+                sub = self._to_element(subkey, subval)
+                ele.append(sub)
+        elif isinstance(value, list):
+            ele.attrib["type"] = "list"
+            for item in value:
+                sub = self._to_element("item", item)
+                ele.append(sub)""")
